@@ -107,6 +107,16 @@ class Gen:
         self.emit("put s %s %s %s %d %d %s" % (hx(st), hx(k), hx(self.value()), self.align(), 1 if unique else 0, info))
         self.live.setdefault(st, set()).add(k)
 
+    def flip(self, st):
+        """overwrite a stored key by an inline-typed value and back (the value's representation
+        changes twice, the tree must not notice)"""
+        live = sorted(self.live.get(st, []))
+        if not live:
+            return
+        k = self.r.choice(live)
+        self.emit("flipcheck s %s %s" % (hx(st), hx(k)))
+        self.put(st, k, unique=False, info="new")
+
     def remove(self, st, k):
         self.emit("remove s %s %s" % (hx(st), hx(k)))
         self.live.setdefault(st, set()).discard(k)
@@ -152,6 +162,16 @@ class Gen:
         le, re_ = r.choice("EIF"), r.choice("EIF")
         if r.random() < 0.7 and le != "F" and re_ != "F" and lk > rk:
             lk, rk = rk, lk
+        live = sorted(self.live.get(st, []))
+        if live and r.random() < 0.25:
+            # an endpoint that is exactly a stored key whose length is a multiple of the slice size
+            full = [k for k in live if k and len(k) % 8 == 0]
+            k = r.choice(full) if full and r.random() < 0.6 else r.choice(live)
+            if r.random() < 0.5:
+                if le == "F" or lk <= k:
+                    rk, re_ = k, r.choice("EEI")
+            elif re_ == "F" or k <= rk:
+                lk, le = k, r.choice("EEI")
         n = len(self.live.get(st, []))
         mx = r.choice([0, 0, 0, 1, 2, max(n - 1, 0), n, n + 1])
         r2l = 0
@@ -224,6 +244,17 @@ class Gen:
                 lk, le = r.choice(live), "I"
                 if re_ != "F" and lk > rk:
                     re_ = "F"
+        if live and r.random() < 0.3:
+            # the far end of the traversal is exactly a stored key (EXCLUSIVE or INCLUSIVE), preferably
+            # one whose length is a multiple of the slice size (it is an entry and a layer prefix)
+            full = [k for k in live if k and len(k) % 8 == 0]
+            k = r.choice(full) if full and r.random() < 0.6 else r.choice(live)
+            if r2l:
+                if re_ == "F" or k <= rk:
+                    lk, le = k, r.choice("EEI")
+            else:
+                if le == "F" or lk <= k:
+                    rk, re_ = k, r.choice("EEI")
         self.emit("iopen %s %s %s %s %s %s %d %d" % (cur, hx(st), hx(lk), le, hx(rk), re_, r2l, 0))
         # the driver stops calling inext after OK_SCAN_END; we bound the count by the live set
         n = len(self.live.get(st, [])) + 2
@@ -421,6 +452,8 @@ class Gen:
             for k in order:
                 self.put(st, k, unique=False)
             self.emit("mem %s" % hx(st))
+            for _ in range(3):
+                self.flip(st)
             for _ in range(6):
                 self.scan(st, pool)
             for _ in range(4):
@@ -473,8 +506,10 @@ class Gen:
                     self.phantom(st, pool)
                 elif x < 0.92:
                     self.iscan(st, pool)
-                elif x < 0.94:
+                elif x < 0.93:
                     self.emit("mem %s" % hx(st))
+                elif x < 0.94:
+                    self.flip(st)
                 elif x < 0.96:
                     # storage churn
                     n = r.choice(names + [b"zz", b"a\x00"])
